@@ -99,3 +99,11 @@ func init() {
 		Assumptions: metaAssume,
 	})
 }
+
+func init() {
+	addProp(&propDef{
+		ID: "C12", Check: "env", Level: "exploration",
+		Rule: "every grammar-derived spec up to the size bound x every argv up to the length bound x every non-empty subset E of {a, o} backed by a set, valid environment variable; two real runs (variables unset / set): (1) accepted unset => accepted set; (2) for specs without `--`: written options hold exactly their command-line values, unwritten env-backed options hold the environment value; (3) for argvs naming no option of E: reference(spec with E's single atoms optional) accepts => accepted, reference(... and groups containing an E option optional) rejects => rejected (in between: unclaimed U3); non-trivial = accepted in at least one of the two runs",
+		Assumptions: []string{"reference semantics of DESIGN.md section 4 with env-backed atoms made optional", "environment variables VQ_A / VQ_O are set only around the declaration of the application under test and unset afterwards"},
+	})
+}
